@@ -565,6 +565,19 @@ def gen_growth(rng):
         h.reopen_check(cut)
         h.r(h.start, h.end + 1)
         impl_cases.append(h.case("growth-%d" % big))
+    # the records fill the pre-sized file EXACTLY (data area 4096 .. 1 MiB = 1020 frames of 1024 bytes, not a
+    # multiple of 128 records): the zero marker behind the last record only exists if write() extended the file
+    for extra in (0, 1):
+        h = Hist(rng, start=1, pre=1)
+        h.budget = 1 << 30
+        for _ in range(1020):
+            h.w_frame(CHUNK, term=1)
+        for _ in range(extra):
+            h.w(9, term=1)
+        h.check().reopen_check(h.start + 7 * INTERVAL)
+        h.w(5).check()
+        h.r(h.start + 1000, h.end + 1)
+        impl_cases.append(h.case("fill-file-exactly+%d" % extra))
     return model_cases, impl_cases
 
 
